@@ -50,32 +50,60 @@ def check_hint_shape(cl):
             raise OutOfReach(f"hint {cl.name}: conjunct is not a lemma application")
 
 
+def lemma_hint(ex, sp, args, st):
+    """@lemma(..., hint=lambda <args>: L1(..) and L2(..)): instances of lemmas registered EARLIER
+    (acyclic), assumed while proving this lemma"""
+    from .calls import lemma_formula
+    node = sp.node()
+    lam = None
+    for d in node.decorator_list:
+        if isinstance(d, ast.Call):
+            for k in d.keywords:
+                if k.arg == "hint" and isinstance(k.value, ast.Lambda):
+                    lam = k.value
+    if lam is None:
+        return []
+    e = lam.body
+    parts = e.values if isinstance(e, ast.BoolOp) and isinstance(e.op, ast.And) else [e]
+    earlier = [l.name for l in REGISTRY.lemmas[: REGISTRY.lemmas.index(sp)]]
+    for p in parts:
+        if not (isinstance(p, ast.Call) and isinstance(p.func, ast.Name) and p.func.id in earlier):
+            raise OutOfReach(f"lemma {sp.name}: hint conjunct is not an earlier lemma")
+    env = {a.arg: v for a, v in zip(lam.args.args, [args[sp.argnames.index(a.arg)] for a in lam.args.args])}
+    sub = Exec(ex.ctx, sp.file, contract=None, spec_mode=True)
+    sub.fn_stack = [(node, None)]
+    v = sub.eval(e, State(env, [], st.facts))
+    return [sub.truth(v)]
+
+
 def lemma_obligations(sp):
     """proof obligations of one lemma (plain validity, or base + step of an induction)"""
     from .calls import lemma_formula
     ctx = Ctx(f"lemma:{sp.name}", REGISTRY)
     ex = Exec(ctx, sp.file, contract=None, spec_mode=True)
     ex.fn_stack = [(sp.node(), None)]
-    facts = []
+    from .core import Facts
+    facts = Facts()
     st = State({}, [], facts)
     args = [S.fresh(srt, n) for n, srt in zip(sp.argnames, sp.args)]
     F = lemma_formula(ex, sp, args, st).term
     obs = []
+    H = lemma_hint(ex, sp, args, st)
     if sp.induct is None:
-        ob = Obligation(f"lemma:{sp.name}/valid", "lemma", [], F, sp.file)
+        ob = Obligation(f"lemma:{sp.name}/valid", "lemma", H, F, sp.file)
         ob.facts = facts
         obs.append(ob)
     else:
         i = sp.argnames.index(sp.induct)
         n = args[i].term
-        ob = Obligation(f"lemma:{sp.name}/base", "lemma", [n <= 0], F, sp.file)
+        ob = Obligation(f"lemma:{sp.name}/base", "lemma", [n <= 0] + H, F, sp.file)
         ob.facts = facts
         obs.append(ob)
         from .sorts import VNum
         args2 = list(args)
         args2[i] = VNum(n - 1, "int")
         IH = lemma_formula(ex, sp, args2, st).term
-        ob = Obligation(f"lemma:{sp.name}/step", "lemma", [n > 0, IH], F, sp.file)
+        ob = Obligation(f"lemma:{sp.name}/step", "lemma", [n > 0, IH] + H, F, sp.file)
         ob.facts = facts
         obs.append(ob)
     return obs
@@ -96,7 +124,8 @@ def verify_function(info: ContractInfo) -> FunctionResult:
     ex = Exec(ctx, info.relpath, contract=info)
     cls = info.qualname.split(".")[0] if "." in info.qualname else None
     ex.fn_stack = [(fnode, info, cls)]
-    facts = []
+    from .core import Facts
+    facts = Facts()
     st = State({}, [], facts)
     try:
         names = [a.arg for a in fnode.args.args]
@@ -129,7 +158,7 @@ def verify_function(info: ContractInfo) -> FunctionResult:
             res.paths += 1
             where = f"{info.relpath}:{fnode.lineno}"
             env_in = dict(entry.env)
-            cs = State(dict(env_in), [], facts)
+            cs = State(dict(env_in), [], s2.facts)
             extra = dict(olds)
             # clauses see parameters at entry, `self` after the call, result
             if "self" in s2.env:
@@ -137,27 +166,28 @@ def verify_function(info: ContractInfo) -> FunctionResult:
             if kind in ("return", "fall"):
                 n_ret += 1
                 result = payload if (kind == "return" and payload is not None) else NONE
-                apply_hint(ex, info, "hint_return", s2)
+                for hn in sorted(info.clauses("hint_return")):
+                    apply_hint(ex, info, "hint_return" + hn, s2)
                 for exc, cl in raises.items():
-                    c = eval_clause(ex, info, cl, State(dict(env_in), [], facts), {})
+                    c = eval_clause(ex, info, cl, State(dict(env_in), [], s2.facts), {})
                     ctx.oblige(s2, z3.Not(c), f"raises-iff[{exc}]/normal-return", where)
                 if ens is not None:
                     g = eval_clause(ex, info, ens, cs, dict(extra, result=result))
                     ctx.oblige(s2, g, "post", where)
                 cov = Obligation(f"{ctx.fname}/cover-return#{res.paths}", "cover", list(s2.pc), z3.BoolVal(True), where)
-                cov.facts = facts
+                cov.facts = s2.facts
                 ctx.obligations.append(cov)
             elif kind == "raise":
                 exc = payload
                 apply_hint(ex, info, f"hint_raise_{exc}", s2)
                 if exc in raises:
-                    c = eval_clause(ex, info, raises[exc], State(dict(env_in), [], facts), {})
+                    c = eval_clause(ex, info, raises[exc], State(dict(env_in), [], s2.facts), {})
                     ctx.oblige(s2, c, f"raises-iff[{exc}]/raised", where)
                     er = info.clause(f"ensures_on_{exc}") or info.clause("ensures_on_raise")
                     if er is not None:
                         ctx.oblige(s2, eval_clause(ex, info, er, cs, extra), f"post-on-raise[{exc}]", where)
                     cov = Obligation(f"{ctx.fname}/cover-raise[{exc}]#{res.paths}", "cover", list(s2.pc), z3.BoolVal(True), where)
-                    cov.facts = facts
+                    cov.facts = s2.facts
                     ctx.obligations.append(cov)
                 else:
                     ctx.oblige(s2, z3.BoolVal(False), f"no-other-exception[{exc}]", where)
